@@ -40,7 +40,7 @@ def build(want_proofs=True):
         except translate.TranslateError as e:
             res["translate_error"] = str(e)
             return res
-        p = subprocess.run(["lake", "build", "wormhole-driver", "wormhole-db-driver"], cwd=LEAN, stdout=subprocess.PIPE,
+        p = subprocess.run(["lake", "build", "wormhole-driver", "wormhole-db-driver", "wormhole-reg-driver"], cwd=LEAN, stdout=subprocess.PIPE,
                            stderr=subprocess.STDOUT, timeout=3000)
         res["driver_ok"] = p.returncode == 0
         res["log"] += p.stdout.decode()[-3000:]
@@ -198,6 +198,13 @@ def run_history(pid, history, meta):
     oi = corr.observe(history, reader=mode.get("reader", False), timer=mode.get("timer", False), dumps="all")
     om = corr.observe_model(history, dumps="all")
     d = difference(oi, om, spec)
+    if d is None and spec.get("registry_model"):
+        # the registry model (lean/Wormhole/Reg.lean: AppNamespace / Mailbox objects with
+        # identities, proved to refine the object-free model) is tied to the code as well
+        orr = corr.observe_model(history, dumps="all", registry=True)
+        d = difference(oi, orr, spec)
+        if d is not None:
+            d["model"] = {"registry_model": d["model"]}
     tr = oracles.make_trace(oi, history)
     tr.quiesced = bool(meta.get("quiesce"))
     tr.obs = oi
